@@ -93,6 +93,12 @@ def enumerate_paths(prog, fn, limit=20000, split_returns=True, split_stores=True
                 return decide(src, st, record)
         if d.op == 'icmp':
             a, b = C.val(d.ops[0], st.env), C.val(d.ops[1], st.env)
+            if d.pred in ('eq', 'ne') and (INT.match(a) != INT.match(b)):
+                # (int)cond compared with a constant: a status flag / boolean helper result - decide the condition itself
+                o, kc = (d.ops[0], int(b)) if INT.match(b) else (d.ops[1], int(a))
+                bs = bool_source(o, st)
+                if bs is not None:
+                    return decide(bs[0], st, lambda s2, t, one=bs[1], kc=kc: record(s2, _eval(d.pred, one if t else 0, kc)))
             if INT.match(a) and INT.match(b):
                 w = int(d.ty[1:]) if d.ty and d.ty[1:].isdigit() else 64
                 return record(st, _eval(d.pred, int(a), int(b), w))
@@ -129,6 +135,9 @@ def enumerate_paths(prog, fn, limit=20000, split_returns=True, split_stores=True
                 idx = i
                 def cont(s2, t, ins=ins, x=x, y=y, idx=idx):
                     s2.env[ins.res] = C.val(x if t else y, s2.env)
+                    ch = x if t else y
+                    if ch not in ('true', 'false') and not INT.match(ch):
+                        s2.env[('phisrc', ins.res)] = ch
                     resolve_selects(b, s2, idx + 1, k)
                 return decide(c, st, cont)
             i += 1
@@ -143,7 +152,7 @@ def enumerate_paths(prog, fn, limit=20000, split_returns=True, split_stores=True
             return d.ops[0], (1 if d.op == 'zext' else -1)
         if d.op in ('zext', 'sext', 'trunc'):
             return bool_source(d.ops[0], st, depth + 1)
-        if d.op == 'phi':
+        if d.op == 'phi' or (d.op == 'select' and d.ty != 'i1'):
             src = st.env.get(('phisrc', v))
             if src is not None and not str(st.env.get(v, '')).startswith('loop%'):
                 return bool_source(src, st, depth + 1)
@@ -195,6 +204,23 @@ def enumerate_paths(prog, fn, limit=20000, split_returns=True, split_stores=True
                             if v not in ('true', 'false') and not INT.match(v):
                                 newenv[('phisrc', ins.res)] = v
         st.env.update(newenv)
+        # memory along the path: a load that follows a store to the same address, with no other store or call in between,
+        # yields the stored value (`if (w <= 0) args->w = 8; desc->w = args->w;` stores 8 on that path, whatever the merge
+        # block looks like).  Only the most recent store is remembered; any other store or call forgets it.
+        for ins in b.insts:
+            if ins.op == 'store':
+                for key in [k_ for k_ in st.env if isinstance(k_, tuple) and k_[0] == 'mem']:
+                    del st.env[key]
+                st.env[('mem', C.val(ins.ops[1], st.env))] = (ins.ops[0], ins.ty)
+            elif ins.op == 'call' and not (ins.callee or '').startswith('@llvm.dbg'):
+                for key in [k_ for k_ in st.env if isinstance(k_, tuple) and k_[0] == 'mem']:
+                    del st.env[key]
+            elif ins.op == 'load':
+                hit = st.env.get(('mem', C.val(ins.ops[0], st.env)))
+                if hit is not None and hit[1] == ins.ty:
+                    st.env[ins.res] = C.val(hit[0], st.env)
+                    if hit[0] not in ('true', 'false') and not INT.match(hit[0]):
+                        st.env[('phisrc', ins.res)] = hit[0]
         blocks = blocks + [b]
         def after_selects(s2):
             ev = list(events) + [i for i in b.insts if i.op in ('call', 'store')]
